@@ -146,8 +146,8 @@ theorem g_restored (φ : Faults) (body : Option Exc) (scramble : Ctx → Ctx) (m
     (block gAenter gAexit φ body scramble m).1.ctx = m.ctx := by
   unfold block gAenter gAexit
   simp only [run, runAtom]
-  cases h1 : φ .dispEnter <;> cases h2 : φ .groupExit <;> cases h3 : φ .dispExit <;>
-    (try cases ‹Exc›) <;> (try cases ‹Exc›) <;> (try cases ‹Exc›) <;> simp [Exc.isException]
+  cases h1 : φ .dispEnter <;> cases h2 : φ .groupExit <;> cases h3 : φ .dispExit <;> cases h4 : φ .metricsExit <;>
+    (try cases ‹Exc›) <;> (try cases ‹Exc›) <;> (try cases ‹Exc›) <;> (try cases ‹Exc›) <;> simp [Exc.isException]
 
 theorem g_same_exception (φ : Faults) (body : Option Exc) (scramble : Ctx → Ctx) (m : M)
     (h : ∀ a, φ a = none) : (block gAenter gAexit φ body scramble m).2 = body := by
@@ -160,8 +160,8 @@ theorem g_cleanup_all_run (φ : Faults) (body : Option Exc) (scramble : Ctx → 
     l.count .dispExit = 1 ∧ l.count .groupExit = 1 ∧ l.count .metricsExit = 1 ∧ l.count .stateExit = 1 := by
   unfold block gAenter gAexit
   simp only [run, runAtom, hin]
-  cases h2 : φ .groupExit <;> cases h3 : φ .dispExit <;> (try cases ‹Exc›) <;> (try cases ‹Exc›) <;>
-    simp [Exc.isException]
+  cases h2 : φ .groupExit <;> cases h3 : φ .dispExit <;> cases h4 : φ .metricsExit <;> (try cases ‹Exc›) <;> (try cases ‹Exc›) <;>
+    (try cases ‹Exc›) <;> simp [Exc.isException]
 
 theorem g_failed_enter_rolls_back (φ : Faults) (body : Option Exc) (scramble : Ctx → Ctx) (m : M) (e : Exc)
     (hin : φ .dispEnter = some e) :
@@ -170,7 +170,7 @@ theorem g_failed_enter_rolls_back (φ : Faults) (body : Option Exc) (scramble : 
     l.count .metricsEnter = 1 ∧ l.count .metricsExit = 1 ∧ l.count .dispExit = 0 ∧ r.2.isSome := by
   unfold block gAenter
   simp only [run, runAtom, hin]
-  cases e <;> cases h2 : φ .groupExit <;> simp [Exc.isException]
+  cases e <;> cases h2 : φ .groupExit <;> cases h4 : φ .metricsExit <;> simp [Exc.isException]
 
 theorem g_exit_reason (φ : Faults) (body : Option Exc) (scramble : Ctx → Ctx) (m : M)
     (hin : φ .dispEnter = none) :
@@ -179,25 +179,27 @@ theorem g_exit_reason (φ : Faults) (body : Option Exc) (scramble : Ctx → Ctx)
     r.groupSaw = some (match φ .dispExit with | some d => some d | none => body) := by
   unfold block gAenter gAexit
   simp only [run, runAtom, hin]
-  cases h2 : φ .groupExit <;> cases h3 : φ .dispExit <;> (try cases ‹Exc›) <;> simp [Exc.isException]
+  cases h2 : φ .groupExit <;> cases h3 : φ .dispExit <;> cases h4 : φ .metricsExit <;> (try cases ‹Exc›) <;> (try cases ‹Exc›) <;>
+    simp [Exc.isException]
 
 theorem g_enter_rollback_reason (φ : Faults) (body : Option Exc) (scramble : Ctx → Ctx) (m : M) (e : Exc)
     (hin : φ .dispEnter = some e) :
     (block gAenter gAexit φ body scramble m).1.groupSaw = some (some e) := by
   unfold block gAenter
   simp only [run, runAtom, hin]
-  cases e <;> cases h2 : φ .groupExit <;> simp [Exc.isException]
+  cases e <;> cases h2 : φ .groupExit <;> cases h4 : φ .metricsExit <;> simp [Exc.isException]
 
 theorem g_restored_sync (φ : Faults) (body : Option Exc) (scramble : Ctx → Ctx) (m : M)
     (hg : ∀ c, (scramble c).group = c.group) :
     (block gSenter gSexit φ body scramble m).1.ctx = m.ctx := by
   unfold block gSenter gSexit
-  simp [run, runAtom, hg]
+  cases h4 : φ .metricsExit <;> simp [run, runAtom, hg, h4]
 
-theorem g_same_exception_sync (φ : Faults) (body : Option Exc) (scramble : Ctx → Ctx) (m : M) :
+theorem g_same_exception_sync (φ : Faults) (body : Option Exc) (scramble : Ctx → Ctx) (m : M)
+    (h : φ .metricsExit = none) :
     (block gSenter gSexit φ body scramble m).2 = body := by
   unfold block gSenter gSexit
-  simp [run, runAtom]
+  simp [run, runAtom, h]
 
 end Haiway.Generated
 #print axioms Haiway.Generated.g_restored
